@@ -28,7 +28,7 @@ func Intrinsic(data []byte, creation bool) uint64 {
 
 // TxKinds lists the transaction classes DrawTx produces.
 var TxKinds = []string{"transfer", "transfer-new", "transfer-precompile", "store-set", "store-clear", "multistore", "multiclear", "emit",
-	"reverter", "oog", "invalid", "forward", "forward-nested", "creator", "create", "create-failing", "suicide", "recursor", "bouncer", "random-code", "call-then-fail"}
+	"reverter", "oog", "invalid", "forward", "forward-nested", "creator", "create", "create-failing", "suicide", "recursor", "bouncer", "random-code", "call-then-fail", "blockhash", "blockhash"}
 
 // TxCtx is what the transaction generator may look at.
 type TxCtx struct {
@@ -191,6 +191,10 @@ func DrawTx(t *rapid.T, c TxCtx) (*types.Transaction, string) {
 		to, data = addr(AddrCallFail), Cat(WordAddr(target), WordBig(smallValue()), drawInner(t, target))
 		value = smallValue()
 		extra += 150000
+	case "blockhash":
+		// stores and logs BLOCKHASH(number - k): the result depends on the block's own ancestry
+		to, data = addr(AddrBlockhash), Word(uint64(rapid.SampledFrom([]int{0, 1, 1, 2, 2, 3, 5, 200, 256, 257, 300}).Draw(t, "back")))
+		extra += 30000
 	case "recursor":
 		to = addr(AddrRecursor)
 		extra += 150000
